@@ -11,6 +11,7 @@ import (
 	"encoding/json"
 	"fmt"
 	"os"
+	"path/filepath"
 	"sort"
 	"strings"
 
@@ -973,6 +974,9 @@ func runC04(c *lib.Ctx) {
 	}
 	if c.Replay != "" {
 		var rec map[string]any
+		if _, err := os.Stat(c.Replay); err != nil && !filepath.IsAbs(c.Replay) {
+			c.Replay = filepath.Join(c.Root, c.Replay) // the harness runs in its run directory
+		}
 		if err := lib.ReadJSON(c.Replay, &rec); err != nil {
 			fmt.Println("cannot read replay file:", err)
 			return
@@ -982,6 +986,8 @@ func runC04(c *lib.Ctx) {
 			c04ReplayLambda(c, rec)
 		case "builtin":
 			c04ReplayBuiltin(c, rec)
+		case "builtin-static":
+			c04ReplayStatic(c, rec)
 		default:
 			fmt.Println("replay file has no usable case (kind:", rec["kind"], ")")
 		}
